@@ -289,6 +289,26 @@ theorem new_history_refines (confCap : Nat) (t : Triple) (m0 : Mem) (hn : Deque.
       · rw [k4] at h2; exact absurd h2.1 (by decide)
       · rw [k4] at h3; exact absurd h3.1 (by decide)
 
+/-- **from the constructor, every refusal schedule**: any configured capacity, either constructor, any
+allocator behaviour from the first call on.  Either the constructor is refused (`CC_ERR_ALLOC`, no object,
+balanced ledger), or it yields an empty queue on the given triple and *every* interleaving on it, under
+whatever schedule remains, refines the FIFO told which enqueues were blocked; three blocks owned throughout -/
+theorem new_history_refines_sched (confCap : Nat) (t : Triple) (m0 : Mem) (ops : List Op) :
+    ((Queue.new confCap t m0).1 = .errAlloc ∧ (Queue.new confCap t m0).2.1 = none ∧
+      Deque.memSame t (Queue.new confCap t m0).2.2 m0) ∨
+    (∃ q0, (Queue.new confCap t m0).2.1 = some q0 ∧ (Queue.new confCap t m0).1 = .ok ∧ q0.triple = t ∧
+      (runQ q0 (Queue.new confCap t m0).2.2 ops).1 =
+        (runB {} (ops.zip (flags q0 (Queue.new confCap t m0).2.2 ops))).1 ∧
+      Sim (runQ q0 (Queue.new confCap t m0).2.2 ops).2.1
+        (runB {} (ops.zip (flags q0 (Queue.new confCap t m0).2.2 ops))).2 ∧
+      Deque.memRel t 3 (runQ q0 (Queue.new confCap t m0).2.2 ops).2.2 m0) := by
+  rcases Queue.new_spec confCap t m0 with ⟨n1, q0, n2, n3, n4, _, n6, n7⟩ | ⟨n1, n2, n3⟩
+  · right
+    obtain ⟨r1, r2, r3⟩ := history_refines_sched ops q0 {} (Queue.new confCap t m0).2.2 ⟨n3, by rw [n4]; rfl⟩
+    rw [n6] at r3
+    exact ⟨q0, n2, n1, n6, r1, r2, Deque.memRel_same r3 n7⟩
+  · exact Or.inl ⟨n1, n2, n3⟩
+
 /-! ## the property in its own vocabulary (facts about the ideal FIFO) -/
 
 /-- values enqueued by a history, in order -/
@@ -345,6 +365,87 @@ theorem spec_size_history (ops : List Op) (f : Fifo) :
   have := congrArg List.length (spec_fifo ops f)
   simpa [Fifo.size] using this
 
+/-- values of the enqueues that were executed (not blocked), in order -/
+def enqueuedB : List (Op × Bool) → List Nat
+  | [] => []
+  | (.enqueue x, false) :: obs => x :: enqueuedB obs
+  | _ :: obs => enqueuedB obs
+
+/-- **FIFO order with refusals**: the same law for the FIFO that is told which enqueues were blocked — a
+blocked enqueue contributes nothing, everything else is as in `spec_fifo` -/
+theorem spec_fifo_blocked (obs : List (Op × Bool)) (f : Fifo) :
+    f.items ++ enqueuedB obs = polled (obs.map (·.1)) (runB f obs).1 ++ (runB f obs).2.items := by
+  induction obs generalizing f with
+  | nil => simp [enqueuedB, polled, runB]
+  | cons ob obs ih =>
+    obtain ⟨op, b⟩ := ob
+    cases b with
+    | true =>
+      have := ih f
+      cases op <;> simp only [runB, stepB, if_true, enqueuedB, List.map_cons, polled] <;> exact this
+    | false =>
+      simp only [runB, stepB, Bool.false_eq_true, if_false, List.map_cons]
+      cases op with
+      | enqueue x =>
+        have := ih (f.enqueue x)
+        simp only [stepF, enqueuedB, polled]
+        simp only [Fifo.enqueue, List.append_assoc, List.singleton_append] at this
+        exact this
+      | poll =>
+        simp only [stepF, enqueuedB, Fifo.poll]
+        cases hitems : f.items with
+        | nil =>
+          simp only [polled]
+          have := ih f
+          rw [hitems] at this
+          exact this
+        | cons y ys =>
+          simp only [polled]
+          have := ih ⟨ys⟩
+          simp only at this
+          rw [List.cons_append, this]; rfl
+      | peek =>
+        simp only [stepF, enqueuedB]
+        have := ih f
+        cases hp : f.peek with
+        | mk st v => cases st <;> cases v <;> simp only [polled] <;> exact this
+      | size =>
+        simp only [stepF, enqueuedB, polled]
+        exact ih f
+
+theorem flags_length (ops : List Op) (q : Queue) (m : Mem) : (flags q m ops).length = ops.length := by
+  induction ops generalizing q m with
+  | nil => rfl
+  | cons op ops ih => simp only [flags, List.length_cons]; rw [ih]
+
+/-- **FIFO on the concrete queue, every refusal schedule** (`spec_fifo` transported to the model): over any
+interleaving on `cc_queue.c`'s model, from any ring layout and under any allocator behaviour, what was in the
+queue (oldest first) followed by every enqueue that was not blocked equals everything the model's `poll`
+calls returned followed by what the queue still holds — `poll` returns the least recently enqueued element
+not yet polled, through any number of growth steps, refused growth steps and wrap-arounds -/
+theorem fifo_model (ops : List Op) (q : Queue) (f : Fifo) (m : Mem) (h : Sim q f) :
+    f.items ++ enqueuedB (ops.zip (flags q m ops)) =
+      polled ops (runQ q m ops).1 ++ (runQ q m ops).2.1.abs.reverse := by
+  obtain ⟨r1, r2, _⟩ := history_refines_sched ops q f m h
+  have hlen := flags_length ops q m
+  have hmap : (ops.zip (flags q m ops)).map (·.1) = ops := by
+    rw [List.map_fst_zip (by omega)]
+  have := spec_fifo_blocked (ops.zip (flags q m ops)) f
+  rw [hmap, ← r1] at this
+  rw [this, r2.2]; simp
+
+/-- **size = executed insertions − successful removals, on the concrete queue, every schedule** -/
+theorem size_history_model (ops : List Op) (q : Queue) (f : Fifo) (m : Mem) (h : Sim q f) :
+    q.size + (enqueuedB (ops.zip (flags q m ops))).length =
+      (polled ops (runQ q m ops).1).length + (runQ q m ops).2.1.size := by
+  have := congrArg List.length (fifo_model ops q f m h)
+  have hq : q.size = f.items.length := by
+    have := congrArg List.length h.2; simpa [Queue.abs, Queue.size] using this
+  simp only [List.length_append, List.length_reverse] at this
+  simp only [Queue.size] at hq ⊢
+  have hfin : (runQ q m ops).2.1.abs.length = (runQ q m ops).2.1.d.size := by simp [Queue.abs]
+  omega
+
 /-- `peek` shows exactly the element the next `poll` returns, and does not remove it -/
 theorem spec_peek_poll (f : Fifo) : f.peek.1 = f.poll.1 ∧ f.peek.2 = f.poll.2.1 := by
   unfold Fifo.peek Fifo.poll; cases f.items <;> exact ⟨rfl, rfl⟩
@@ -381,5 +482,18 @@ theorem iteration_observes (q : Queue) (f : Fifo) (m : Mem) (it : Deque.Iter) (h
 /-- the hypotheses are satisfiable by a non-trivial state: a wrapped, exactly full ring -/
 example : Sim ⟨Deque.mk 4 4 3 3 [12, 13, 14, 11] .conf, .conf⟩ ⟨[14, 13, 12, 11]⟩ := by
   refine ⟨by decide, by decide⟩
+
+/-- non-vacuity of the every-schedule statements: a wrapped, exactly full ring; the first growth is refused,
+the second succeeds, then the queue is drained and polled once more on empty — outputs, blocked flags and
+ledger as the theorems say -/
+example :
+    (runQ ⟨Deque.mk 4 4 3 3 [12, 13, 14, 11] .conf, .conf⟩ { sched := [true, false], live := 3 }
+      [.enqueue 5, .enqueue 6, .poll, .poll, .poll, .poll, .poll, .poll]).1 =
+      [⟨some .errAlloc, none⟩, ⟨some .ok, none⟩, ⟨some .ok, some 14⟩, ⟨some .ok, some 13⟩, ⟨some .ok, some 12⟩,
+       ⟨some .ok, some 11⟩, ⟨some .ok, some 6⟩, ⟨some .errOutOfRange, none⟩] ∧
+    flags ⟨Deque.mk 4 4 3 3 [12, 13, 14, 11] .conf, .conf⟩ { sched := [true, false], live := 3 }
+      [.enqueue 5, .enqueue 6, .poll] = [true, false, false] ∧
+    (runQ ⟨Deque.mk 4 4 3 3 [12, 13, 14, 11] .conf, .conf⟩ { sched := [true, false], live := 3 }
+      [.enqueue 5, .enqueue 6, .poll]).2.2.live = 3 := by decide
 
 end CC.Properties.C09Queue
